@@ -510,7 +510,7 @@ pub async fn replay_one(ln: usize, c: &Value, trace: &mut dyn io::Write, out: &m
         "{}",
         json!({"case": format!("u{ln}"), "ok": ok, "prompt": prompt, "expected": c["allowed"], "observed": observed,
                "class": class, "kind": acc_kind, "err": r.err, "adapter": r.adapter_errors,
-               "nontrivial": forgeries_examined >= 1,
+               "nontrivial": forgeries_examined >= 1, "gen": if ok { Value::Null } else { c.clone() },
                "input": {"cr": cr, "nq": nq, "sched": sched}})
     )
     .unwrap();
@@ -591,6 +591,7 @@ pub async fn replay_retx(ln: usize, c: &Value, trace: &mut dyn io::Write, out: &
                "observed": {"o": r.o, "acc": acc, "ex": ex, "txs": r.examined.len()},
                "class": class, "kind": acc_kind, "err": r.err, "adapter": r.adapter_errors,
                "nontrivial": forgeries_examined >= 1 && r.examined.len() == 2,
+               "gen": if ok { Value::Null } else { c.clone() },
                "input": {"cr": cr, "nq": nq, "s1": s1, "s2": s2, "s1b": s1b}})
     )
     .unwrap();
